@@ -13,10 +13,10 @@ def SubR.NR (s : SubR) : Prop := ∀ l ∈ s.lines, ∀ b t, l ≠ .rule b t
 /-- the invariant: the pending `WrappedBlock` is well formed, and when borders are not drawn the renderer holds no rule
     line (so border collapsing never meets a rule without a previous line to merge it into) -/
 def SubR.Sane (cfg : Cfg) (s : SubR) : Prop :=
-  (∀ w, s.wrapping = some w → w.Inv ∧ w.Live) ∧ (cfg.drawBorders = false → s.NR)
+  (∀ w, s.wrapping = some w → w.Inv ∧ w.Live ∧ w.overflow = cfg.overflow) ∧ (cfg.drawBorders = false → s.NR)
 
 /-- outcome of an operation on a sub-renderer: a value (again sane) or `TooNarrow` -/
-def GoodS (cfg : Cfg) (r : Except Err SubR) : Prop := Safe r ∧ ∀ s', r = .ok s' → s'.Sane cfg
+def GoodS (cfg : Cfg) (r : Except Err SubR) : Prop := Safe cfg.overflow r ∧ ∀ s', r = .ok s' → s'.Sane cfg
 
 variable {cfg : Cfg}
 
@@ -72,15 +72,15 @@ theorem flushWrapping_good (s : SubR) (h : s.Sane cfg) : GoodS cfg s.flushWrappi
   | none => exact ⟨GoodS.ok h, fun s' e => by injection e with e; subst e; exact hw⟩
   | some w =>
     simp only
-    obtain ⟨wi, wl⟩ := h.1 w hw
+    obtain ⟨wi, wl, wo⟩ := h.1 w hw
     generalize hw' : (if w.word.noContent = true then { w with word := [] } else w) = w'
-    have hi' : w'.Inv ∧ w'.Live := by
+    have hi' : w'.Inv ∧ w'.Live ∧ w'.overflow = cfg.overflow := by
       rw [← hw']; split
       · rename_i hn
         exact ⟨⟨wi.linelen_eq, by show w.wordlen = lw []; rw [wi.wordlen_eq, noContent_lw _ hn]; rfl, wi.line_fit, wi.text_fit, wi.tag_ok⟩,
-          Or.inr (by simp [TLine.noContent])⟩
-      · exact ⟨wi, wl⟩
-    have hs := finish_safe w' hi'.1 hi'.2
+          Or.inr (by simp [TLine.noContent]), wo⟩
+      · exact ⟨wi, wl, wo⟩
+    have hs := (finish_safe w' hi'.1 hi'.2.1).cast hi'.2.2
     cases hf : w'.finish with
     | error e =>
       refine ⟨⟨by intro e' he'; simp [andThen] at he'; subst he'; exact hs e hf, by intro s' he'; simp [andThen] at he'⟩, by intro s' he'; simp [andThen] at he'⟩
@@ -117,13 +117,13 @@ theorem newLineHard_good (s : SubR) (h : s.Sane cfg) : GoodS cfg s.newLineHard :
     · exact addEmptyLine_good s h
     · exact (flushWrapping_good s h).1
 
-theorem getWrapping_sane (s : SubR) (c : Cfg) (h : s.Sane cfg) : (s.getWrapping c).Inv ∧ (s.getWrapping c).Live := by
+theorem getWrapping_sane (s : SubR) (h : s.Sane cfg) : (s.getWrapping cfg).Inv ∧ (s.getWrapping cfg).Live ∧ (s.getWrapping cfg).overflow = cfg.overflow := by
   unfold SubR.getWrapping
   cases hw : s.wrapping with
   | some w => exact h.1 w hw
-  | none => exact ⟨new_inv _ _ _, Or.inr (by simp [TLine.noContent])⟩
+  | none => exact ⟨new_inv _ _ _, Or.inr (by simp [TLine.noContent]), rfl⟩
 
-theorem addInlineText_good (s : SubR) (c : Cfg) (x : List Ch) (f : Ann → Ann) (h : s.Sane cfg) : GoodS cfg (s.addInlineText c x f) := by
+theorem addInlineText_good (s : SubR) (x : List Ch) (f : Ann → Ann) (h : s.Sane cfg) : GoodS cfg (s.addInlineText cfg x f) := by
   unfold SubR.addInlineText
   split
   · exact GoodS.ok h
@@ -134,31 +134,31 @@ theorem addInlineText_good (s : SubR) (c : Cfg) (x : List Ch) (f : Ann → Ann) 
     apply g0.andThen
     intro s0 _ h0
     simp only
-    obtain ⟨gi, gl⟩ := getWrapping_sane s0 c h0
-    generalize (s0.getWrapping c) = w at gi gl
-    have hs := addText_safe w s0.wsMode (if s0.preDepth > 0 then s0.annStack ++ [f (Ann.pre false)] else s0.annStack)
-      (if s0.preDepth > 0 then s0.annStack ++ [f (Ann.pre true)] else s0.annStack) (iterN strikeFilter s0.filterDepth x) gi
+    obtain ⟨gi, gl, go⟩ := getWrapping_sane s0 h0
+    generalize (s0.getWrapping cfg) = w at gi gl go
+    have hs := (addText_safe w s0.wsMode (if s0.preDepth > 0 then s0.annStack ++ [f (Ann.pre false)] else s0.annStack)
+      (if s0.preDepth > 0 then s0.annStack ++ [f (Ann.pre true)] else s0.annStack) (iterN strikeFilter s0.filterDepth x) gi).cast go
     cases hr : w.addText s0.wsMode (if s0.preDepth > 0 then s0.annStack ++ [f (Ann.pre false)] else s0.annStack)
       (if s0.preDepth > 0 then s0.annStack ++ [f (Ann.pre true)] else s0.annStack) (iterN strikeFilter s0.filterDepth x) with
     | error e => exact ⟨by intro e' he'; simp [andThen] at he'; subst he'; exact hs e hr, by intro s' he'; simp [andThen] at he'⟩
     | ok w' =>
       simp only [andThen]
-      obtain ⟨i', l', _, _⟩ := addText_inv' _ _ _ _ w w' gi gl hr
-      exact GoodS.ok ⟨by intro w2 hw2; simp at hw2; subst hw2; exact ⟨i', l'⟩, h0.2⟩
+      obtain ⟨i', l', o', _⟩ := addText_inv' _ _ _ _ w w' gi gl hr
+      exact GoodS.ok ⟨by intro w2 hw2; simp at hw2; subst hw2; exact ⟨i', l', o'.trans go⟩, h0.2⟩
 
-theorem recordFrag_sane (s : SubR) (c : Cfg) (n : List Ch) (h : s.Sane cfg) : (s.recordFrag c n).Sane cfg := by
-  obtain ⟨gi, gl⟩ := getWrapping_sane s c h
+theorem recordFrag_sane (s : SubR) (n : List Ch) (h : s.Sane cfg) : (s.recordFrag cfg n).Sane cfg := by
+  obtain ⟨gi, gl, go⟩ := getWrapping_sane s h
   refine ⟨?_, h.2⟩
   intro w hw
   simp [SubR.recordFrag] at hw; subst hw
-  refine ⟨⟨gi.linelen_eq, by simp [WB.addElement, gi.wordlen_eq, Elt.w], gi.line_fit, gi.text_fit, gi.tag_ok⟩, ?_⟩
+  refine ⟨⟨gi.linelen_eq, by simp [WB.addElement, gi.wordlen_eq, Elt.w], gi.line_fit, gi.text_fit, gi.tag_ok⟩, ?_, go⟩
   rcases gl with gl | gl
   · exact Or.inl gl
   · right
     simp only [WB.addElement, TLine.noContent, List.any_append, List.any_cons, List.any_nil, Elt.isCell, Bool.or_false, Bool.not_eq_true'] at gl ⊢
     simpa using gl
 
-theorem intoLines_safe (s : SubR) (h : s.Sane cfg) : Safe s.intoLines := by
+theorem intoLines_safe (s : SubR) (h : s.Sane cfg) : Safe cfg.overflow s.intoLines := by
   unfold SubR.intoLines
   apply Safe.andThen (flushWrapping_good s h).1.1
   intro s1 _
@@ -190,7 +190,7 @@ theorem appendSub_good (s other : SubR) (first rest : List Ch) (h : s.Sane cfg) 
 
 /-! ## programs -/
 
-def GoodR (cfg : Cfg) (r : Except Err RS) : Prop := Safe r ∧ ∀ t', r = .ok t' → t'.cur.Sane cfg
+def GoodR (cfg : Cfg) (r : Except Err RS) : Prop := Safe cfg.overflow r ∧ ∀ t', r = .ok t' → t'.cur.Sane cfg
 
 theorem GoodR.ok {t : RS} (h : t.cur.Sane cfg) : GoodR cfg (.ok t) := ⟨Safe.ok _, fun t' e => by injection e with e; subst e; exact h⟩
 
@@ -222,25 +222,25 @@ theorem stepSimple_good (cfg : Cfg) (d : Deco) (t : RS) (op : Op) (h : t.cur.San
     have hne : ¬ t.cur.preDepth = 0 := by omega
     simp only [hne, if_false]
     exact keep (fun s => { s with preDepth := s.preDepth - 1 }) rfl rfl
-  case text x => exact onCur_good t _ (addInlineText_good _ cfg x _ h)
-  case frag n => exact onCur_good t _ (GoodS.ok (recordFrag_sane _ cfg n h))
+  case text x => exact onCur_good t _ (addInlineText_good _ x _ h)
+  case frag n => exact onCur_good t _ (GoodS.ok (recordFrag_sane _ n h))
   case startLink href =>
     apply onCur_good
-    exact addInlineText_good _ cfg _ _ (sane_of_eq h rfl rfl)
+    exact addInlineText_good _ _ _ (sane_of_eq h rfl rfl)
   case endLink =>
     have g1 : GoodR cfg (t.onCur fun s => andThen (s.addInlineText cfg d.linkEnd d.annOf) fun s' => Except.ok { s' with annStack := s'.annStack.dropLast }) := by
       apply onCur_good
-      apply (addInlineText_good _ cfg _ _ h).andThen
+      apply (addInlineText_good _ _ _ h).andThen
       intro a _ ha
       exact GoodS.ok (sane_of_eq ha rfl rfl)
     apply g1.andThen
     intro t1 _ h1
     split
-    · exact onCur_good t1 _ (addInlineText_good _ cfg _ _ h1)
+    · exact onCur_good t1 _ (addInlineText_good _ _ _ h1)
     · exact GoodR.ok h1
   case startAnn a x strike =>
     apply onCur_good
-    apply (addInlineText_good _ cfg x _ (sane_of_eq h rfl rfl : ({ t.cur with annStack := t.cur.annStack ++ [d.annOf a] } : SubR).Sane cfg)).andThen
+    apply (addInlineText_good _ x _ (sane_of_eq h rfl rfl : ({ t.cur with annStack := t.cur.annStack ++ [d.annOf a] } : SubR).Sane cfg)).andThen
     intro s' _ hs'
     split
     · exact GoodS.ok (sane_of_eq hs' rfl rfl)
@@ -251,12 +251,12 @@ theorem stepSimple_good (cfg : Cfg) (d : Deco) (t : RS) (op : Op) (h : t.cur.San
       split
       · exact sane_of_eq h rfl rfl
       · exact h
-    apply (addInlineText_good _ cfg x _ h0).andThen
+    apply (addInlineText_good _ x _ h0).andThen
     intro s' _ hs'
     exact GoodS.ok (sane_of_eq hs' rfl rfl)
   case image src title =>
     apply onCur_good
-    apply (addInlineText_good _ cfg _ _ (sane_of_eq h rfl rfl : ({ t.cur with annStack := t.cur.annStack ++ [d.annOf (Ann.image src)] } : SubR).Sane cfg)).andThen
+    apply (addInlineText_good _ _ _ (sane_of_eq h rfl rfl : ({ t.cur with annStack := t.cur.annStack ++ [d.annOf (Ann.image src)] } : SubR).Sane cfg)).andThen
     intro s' _ hs'
     exact GoodS.ok (sane_of_eq hs' rfl rfl)
   case startBlock => exact onCur_good t _ (startBlock_good _ h)
@@ -405,9 +405,10 @@ theorem Tot.sub (p m : Nat) (first rest : List Ch) (asBlock : Bool) {body : List
     Tot SubR.widthMinus cfg d [.sub p m first rest asBlock body] := by
   intro t h
   simp only [runOps, runOp]
-  have hwm : Safe (t.cur.widthMinus cfg p m) := by
+  have hwm : Safe cfg.overflow (t.cur.widthMinus cfg p m) := by
     unfold SubR.widthMinus; simp only; split
-    · exact Safe.narrow
+    · rename_i hc
+      exact Safe.narrow (by simp only [Bool.and_eq_true, Bool.not_eq_true'] at hc; exact hc.2)
     · exact Safe.ok _
   cases h1 : t.cur.widthMinus cfg p m with
   | error e => exact ⟨by intro e' he'; simp [andThen_error_eq] at he'; subst he'; exact hwm e h1, by intro s' he'; simp [andThen_error_eq] at he'⟩
@@ -552,13 +553,16 @@ end
 
 /-- **C01 for table-free render trees**: rendering returns lines or `TooNarrow` — never a panic, never a hang — for every
     tree without tables, every configuration (overflow, padding, wrap limits, footnotes, raw, borders ...), every
-    decorator and every width -/
+    decorator and every width; and `TooNarrow` only at width 0 or when overflow is not allowed -/
 theorem renderTree_total_noTable (cfg : Cfg) (d : Deco) (w : Nat) (tree : RNode) (h : noTable tree = true) :
-    Safe (renderTree cfg d w tree) := by
+    Safe (cfg.overflow && decide (w ≠ 0)) (renderTree cfg d w tree) := by
   unfold renderTree
   split
-  · exact Safe.narrow
-  · have g := compile_tot cfg d tree h { cur := { width := w } } (sane_fresh _ _)
+  · rename_i hw; exact Safe.narrow (by simp [hw])
+  · rename_i hw
+    have hc : (cfg.overflow && decide (w ≠ 0)) = cfg.overflow := by simp [hw]
+    rw [hc]
+    have g := compile_tot cfg d tree h { cur := { width := w } } (sane_fresh _ _)
     apply Safe.andThen g.1
     intro t ht
     have st := g.2 t ht
